@@ -224,3 +224,12 @@ Proof.
   intros fuel sp l HT Hf. induction l as [|bd t [xs IH]]; cbn [browse_all]; [eauto|].
   destruct (browse_one_ok fuel sp bd HT (Hf _)) as [x Hx]. rewrite Hx, IH. eauto.
 Qed.
+
+(* MapNamespace.Browse: exactly the made-up references that match the description, in order *)
+Lemma map_loop_exact : forall fuel sp bd rs, sub_refs fuel sp (bd_reftype bd) <> None ->
+  map_loop fuel sp bd rs = Ok (filter (fun r => match suitable_ref fuel sp bd r with Some true => true | _ => false end) rs).
+Proof.
+  intros fuel sp bd rs Hf. induction rs as [|r t IH]; cbn [map_loop filter]; [reflexivity|].
+  pose proof (suitable_ref_total fuel sp bd r Hf) as Hn.
+  destruct (suitable_ref fuel sp bd r) as [[|]|]; [| |contradiction]; now rewrite IH.
+Qed.
